@@ -327,6 +327,13 @@ def directed(pool):
                     "#[derive(::educe::Educe)]\n#[educe(%s)]\npub enum Ty2<%s, const %s: usize> {\n    #[educe(Default)]\n    V(%s, [u8; %s]),\n    W { k: %s },\n}\n"
                     % (ALL9, ", ".join("%s: %sPayload" % (c, RT) for c in chain), ", ".join("pub " + c for c in chain),
                        ALL9, "%s: %sPayload" % (chain[2], RT), chain[1], chain[2], chain[1], chain[2])))
+        # the same with the suffix the Debug helper's name is lengthened with, next to a field that needs the helper
+        chain_ = [x + "__", base + "_", x]
+        out.append(("type-param-chain", x,
+                    "#[derive(::educe::Educe)]\n#[educe(%s)]\npub struct Ty<%s>(%s, #[educe(Debug(method(%szz_dbg)))] pub u8);\n"
+                    "#[derive(::educe::Educe)]\n#[educe(Debug)]\npub enum Ty2<%s> {\n    V(%s, #[educe(Debug(method(%szz_dbg)))] u8),\n    W { #[educe(Debug(method(\"%szz_dbg\")))] k: %s },\n}\n"
+                    % (ALL9, ", ".join("%s: %sPayload" % (c, RT) for c in chain_), ", ".join("pub " + c for c in chain_), RT,
+                       ", ".join(chain_), ", ".join(chain_), RT, RT, chain_[2])))
         if x == base:
           out.append(("lifetime", x,
                     "#[derive(::educe::Educe)]\n#[educe(Debug, Clone, PartialEq, Eq, PartialOrd, Ord, Hash, Deref)]\npub struct Ty<'%s> {\n    pub a: &'%s u8,\n}\n" % (x, x)))
